@@ -22,10 +22,10 @@ from .model import IdMap, build, project, canon, diff
 FAMILIES = {
     # name: (quick SampleMod, thorough SampleMod)
     "mg3": (1, 1), "mg4": (40, 4), "smg3": (1, 1), "crg2": (1, 1), "crg3": (60, 6), "scrg2": (1, 1),
-    "star5": (30, 3), "star5r": (60, 10), "star4lp": (10, 1), "ethene": (10, 1), "two": (1, 1),
+    "star5": (30, 3), "star5r": (60, 10), "star4lp": (10, 1), "lp2": (1, 1), "ethener": (1, 1), "nopar": (1, 1), "ethene": (10, 1), "two": (1, 1),
     "tbp": (1, 1), "oct": (1, 1), "sn2": (10, 1),
 }
-QUICK_FAMS = ["mg3", "mg4", "smg3", "crg2", "crg3", "scrg2", "star5", "star4lp", "ethene", "two", "tbp", "oct", "sn2"]
+QUICK_FAMS = ["mg3", "mg4", "smg3", "crg2", "crg3", "scrg2", "star5", "star4lp", "lp2", "ethener", "nopar", "ethene", "two", "tbp", "oct", "sn2"]
 THOROUGH_FAMS = list(FAMILIES)
 PAIR_CAP = {"quick": 3000, "thorough": 400000}
 
@@ -84,6 +84,8 @@ def run_family(args):
         pairs = keep_iso[: cap // 2] + rest[: cap - min(len(keep_iso), cap // 2)]
     n_ids = 9
     poolA = rnd.sample(range(-60, 200), n_ids)
+    if 0 not in poolA:
+        poolA[rnd.randrange(5)] = 0          # identifier 0 is legitimate and falsy
     poolB = [x + 1000 for x in rnd.sample(range(-60, 5000), n_ids)]
     idA = IdMap({k + 1: poolA[k] for k in range(n_ids)})
     idB = IdMap({k + 1: poolB[k] for k in range(n_ids)})
@@ -137,12 +139,17 @@ def run_family(args):
             fail({"C01"} if exp_iso else {"C02"}, f"eq-raises|{fam}|{type(e).__name__}",
                  f"== raised {type(e).__name__} on a pair of {kind} graphs", det)
             continue
+        # C01 demands equality when h is g renamed / re-spelled; C02 demands inequality when no bijection exists
+        # at all (fully specified parities).  An unspecified parity that matches a specified one is pinned by neither.
+        must_equal = p.get("respell", exp_iso)
         for val, nm in ((e1, "x==y"), (e2, "y==x"), (e3, "is_isomorphic")):
+            if exp_iso and not must_equal:
+                continue
             if val is not exp_iso:
                 if exp_iso:
                     fail({"C01"}, f"eq-miss|{fam}|{kind}|{nm}|{'same' if i == j else 'other'}-member",
                          f"{nm} is {val} although a structure-preserving bijection exists", det)
-                else:
+                elif p.get("spec", True):     # C02 speaks about fully specified parities only
                     fail({"C02"}, f"eq-lie|{fam}|{kind}|{nm}",
                          f"{nm} is {val} although no structure-preserving bijection exists", det)
         if reaction:
@@ -153,7 +160,7 @@ def run_family(args):
             hx, hy = H("A", i, x), H("B", j, y)
         else:
             hx, hy = 0, (0 if exp_iso else 1)
-        if exp_iso and hx != hy:
+        if exp_iso and must_equal and hx != hy and p.get("spec", True):
             fail({"C03"}, f"hash-differs-on-equal|{fam}|{kind}", "isomorphic graphs have different hashes", det)
         if sig_differs:
             n_sigdiff += 1
@@ -235,8 +242,8 @@ PROP_TEXT = {
 
 
 NEED = {"C01": ("eq",), "C02": ("eq",), "C03": ("hash",), "C05": ("enum",), "C06": ("mirror",), "C16": ("hash",)}
-STEREO_FAMS = {"smg3", "scrg2", "star5", "star5r", "star4lp", "ethene", "two", "tbp", "oct", "sn2"}
-REACTION_FAMS = {"crg2", "crg3", "scrg2", "star5r", "sn2"}
+STEREO_FAMS = {"ethener", "nopar", "smg3", "scrg2", "star5", "star5r", "star4lp", "lp2", "ethener", "nopar", "ethene", "two", "tbp", "oct", "sn2"}
+REACTION_FAMS = {"ethener", "crg2", "crg3", "scrg2", "star5r", "sn2"}
 
 
 def run_families(tier, prop):
